@@ -46,6 +46,16 @@ Definition valid (d : design) (n : node) : Prop :=
   | NNc _ _ _ => False
   end.
 
+(* the leaf device a terminal belongs to ("" for a bit of a top-level port) *)
+Definition dev_at (d : design) (n : node) : result name :=
+  match n with
+  | NPort p i _ _ _ =>
+      m <- vmod_at d p ;; x <- ofopt EMissing (find_inst (m_insts m) i) ;;
+      match i_of x with TDev dev _ => Ok dev | TMod _ => Error EBadKind end
+  | NSig _ _ _ => Ok ""
+  | NNc _ _ _ => Error EBadKind
+  end.
+
 (* ---- the modelled fragment ---- *)
 Definition leaf_kind (m : module) (lw : N * Z) : option leaf := assocN (fst lw) (m_leaves m).
 
